@@ -19,6 +19,10 @@ RULE = ("each case = one real System on a current-thread tokio runtime with a pa
         "(maker rebates -1 % / -10 % / -50 %: fees_percent is a signed Decimal; the ops-level spec is silent there, the correspondence is not), fees of 0.5 % and 100 %, quote balances 0 / 99 / 100 / 101 / 250.5 / 2e12 and base balances "
         "0 / 0.5 / 1 / 2 / 20 (exact fits: 1 @ 100 costs 99 at -1 %, 100 without fees, 101 at 1 %), prices 0.5 / 99.99 / 1e-4 / 1e12 and quantities 3 / 0.125 / 1e-8 (every product within 28 digits), latencies 1 / 500 ms "
         "(below the 1 s request timeout of the execution manager, which the composed model does not have), up to three open and two cancel requests per call, a third of the cancel requests with an exchange order id. "
+        "A CONFIGURATION-SHAPE family (cases cfg<n>, one per 8 random cases, own PRNG stream; hand cases in corpus/C20E/cfg_tracked_first.ops): the engine also TRACKS an exchange that is not traded "
+        "(9th token of `sys`; one spot instrument whose exchange name `I0` and asset names `b0` / `q` are those of the mocked exchange's first instrument; no execution link, no op names it): 65 % ExchangeId::Simulated, "
+        "which sorts BEFORE Mock (MultiExchangeTxMap = [None, Some]; the mocked exchange is ExchangeIndex(1), its instruments and assets follow the other's - in every other case it is index 0 and alone), 35 % "
+        "ExchangeId::BinanceSpot, which sorts after it (the same-named assets / instrument are the LAST entries of the tables). Model and ops-level spec have no such exchange: the real system must behave as without it. "
         "Thorough additionally enumerates every op sequence of length <= 3 "
         "over 8 symbols (strategy order, trading on, accepted buy, accepted sell, rejected buy, close positions, settle, sleep 50) for (latency 0, no fees) and (latency 50, 1 % "
         "fees) (1 170 cases). A case is distinct by the SHA-1 of its op lines and non-trivial when the implementation's observation blocks differ")
@@ -47,6 +51,9 @@ ASSUMPTIONS = [
     "one exchange, every request addresses an instrument of that exchange (a request for an instrument the mock exchange does not list makes the ExecutionManager task panic: "
     "C04 route_foreign_instrument_rejected; C20S models that death; not exercised here); open requests are market orders; engine built without orders "
     "and without seeded balances (Fresh)",
+    "set-up shapes FIXED by the harness (configuration-shape audit): ONE traded exchange (plus, in the cfg family, one tracked-but-not-traded exchange that nothing addresses: no market item, no request, "
+    "no filter names it); audit mode never set (default: Disabled - the audit runners with a mocked exchange are C20S's); builder calls feed, trading in that order; SystemBuilder::balances() never called "
+    "(engine starts Fresh); add_live::<MockExecution> with hand-made channels (add_mock's private wiring is C20S's / C20's); spot instruments; SystemBuild::init() on the paused current-thread runtime",
     "number range: exact rationals; Decimal overflow (1e15 x 1e15: the mock exchange task dies, `res joinerr 1`) and the Decimal rounding of a negative fee are outside the models and the generator",
     "the harness creates the request / event channels of the mock exchange itself (ExecutionBuilder::add_mock creates them privately) so that a second real MockExecution client "
     "can query the very same exchange: it calls the real SystemBuilder::build with an empty execution list, builds the execution side with the real ExecutionBuilder::add_live::"
